@@ -17,6 +17,9 @@ CHECKS["C03"] = dict(design="4/C03", technique="TLC-generated derivation corpus 
 CHECKS["C18"] = dict(design="4/C18", technique="TLA+ event semantics of tree visiting (GqlVisitor.Visit) with TLC-enumerated edit plans and named deviations; replay into ASTVisitor / DispatchingVisitor / ChainedVisitor",
     text="spec/GqlVisitor.tla defines the expected enter/leave event sequence and resulting tree for a role-labelled syntax tree under an edit plan (skip / delete list member / replace, per visitor of a chain); TLC enumerates the empty plan, every single edit and every pair on small trees for distinct tree shapes of the grammar corpus and checks Balanced / NoopComplete / EditLocal on the semantics; every (tree, plan) is executed on real visitor objects and the recorded log and tree must equal the specification. Implementation behaviours that differ are accepted only if one of nine named deviations (each a recorded known finding) explains them exactly.",
     note="Tree shape = derivation is established by C02. Replacement nodes are leaves of the same category. Chains: no-op and skip only.")
+CHECKS["C19"] = dict(design="4/C19", technique="TLA+ document builder + depth reference (GqlDepth); TLC enumerates all build sequences, variable values and name filters; replay into MaxDepthValidationRule",
+    text="spec/GqlDepth.tla builds operations by actions (fields, inline fragments, named fragment spreads, @skip/@include steered by a variable) so that only valid documents arise, defines the nesting depth and the set of operations to flag for each limit and operation-name filter, and checks on the model that wrapping in fragments never changes the depth; every generated document is replayed (limits 0..5, direct call and validate_ast, long-lived rule instances and parsed documents) and the flagged set must match with no exception.",
+    note="Depth = number of nested field selection sets below the operation's own (library's documented example = 4). Fixed two-type schema and three-fragment library.")
 NOT_YET = {
 }
 
